@@ -168,6 +168,14 @@ CHECKS["C03"] = _srv(
     "must carry the configured realm and a nonce that is accepted when used immediately.",
     "non-trivial = a defective request was judged in a history in which an allocation exists",
     _SRV_NOTE + " Cryptographic forgery is out of scope; MAC collisions are not searched.")
+CHECKS["C04"]["stages"].append(
+    {"name": "tcp-isolation", "pkg": "srvworld", "run": "^TestC04TCP$",
+     "quick": {"shards": 2, "checks": 2000, "timeout_s": 420},
+     "thorough": {"shards": 8, "checks": 20000, "size": 50, "timeout_s": 2400}})
+CHECKS["C03"]["stages"].append(
+    {"name": "tcp-ownership", "pkg": "srvworld", "run": "^TestC03TCP$",
+     "quick": {"shards": 2, "checks": 2000, "timeout_s": 420},
+     "thorough": {"shards": 8, "checks": 20000, "size": 50, "timeout_s": 2400}})
 
 CHECKS["C20"] = {
     "level": "exploration",
